@@ -1941,14 +1941,23 @@ def split_pad_to_sub_pad(op, arch, nng):
         return op
 
     inp, pad_tensor = op.inputs
-    if len(pad_tensor.values) == 3 or sum(pad_tensor.values[-1, :]) == 0 or sum(pad_tensor.values[0, :]) == 0:
+    if len(pad_tensor.values) != 4:
         return op
+    # Padding of the batch and of the channels is done by concatenation (convert_pad_to_concat), one axis per operation,
+    # padding of height and width by the other PAD rewrites. A PAD that mixes these is split: this operation keeps the
+    # batch (or else the channel) padding, a new PAD in front of it does the rest and is visited again
+    has_batch = bool(sum(pad_tensor.values[0, :]) != 0)
+    has_channel = bool(sum(pad_tensor.values[-1, :]) != 0)
+    has_spatial = bool(pad_tensor.values[1:-1, :].sum() != 0)
+    if not (has_batch or has_channel) or (has_batch + has_channel + has_spatial) < 2:
+        return op
+    axis = 0 if has_batch else len(pad_tensor.values) - 1
 
     pad_sub = op.clone("_sub")
 
     dtype = op.outputs[0].dtype
     out_shape = op.outputs[0].shape.copy()
-    out_shape[0] -= sum(pad_tensor.values[0])
+    out_shape[axis] -= sum(pad_tensor.values[axis])
     pad_sub_out = Tensor(out_shape, dtype, f"{op.outputs[0].name}_sub")
     pad_sub_out.quantization = op.outputs[0].quantization
 
@@ -1959,8 +1968,10 @@ def split_pad_to_sub_pad(op, arch, nng):
     pad_tensor2 = create_const_tensor(
             f"{pad_tensor.name}_sub", pad_shape, pad_dtype, pad_value, quantization=quantization)
 
-    pad_tensor.values[3] = [0, 0]
-    pad_tensor2.values[0] = [0, 0]
+    kept = pad_tensor.values[axis].copy()
+    pad_tensor.values[:] = 0
+    pad_tensor.values[axis] = kept
+    pad_tensor2.values[axis] = [0, 0]
 
     op.set_input_tensor(pad_sub_out, 0)
     pad_sub.set_output_tensor(pad_sub_out)
